@@ -14,7 +14,7 @@ ID = 'C07'
 
 MANIFEST = {
     'engine': 'symx',
-    'text': 'Inductive-step bounded model checking of the real prior_combinations_sample source: the global counter starts in an ARBITRARY state satisfying the invariant max-min<=1 over a duplicate-free candidate list (symbolic counts; or empty = base case), the cap is symbolic (so it may change between batches), one call runs, and z3 shows on every path: len(out)=min(cap,m), distinct members of the list, every selected pre-count <= every unselected one, counter +1 exactly on the selected, invariant restored. One step from every invariant state covers batch sequences of any length. The process-global counter may in addition hold a foreign key of another candidate list; a large-cap condition explores caps around the module constant MAX_FEATURES_3MR (read from the source) with a longer candidate list.',
+    'text': 'Inductive-step bounded model checking of the real prior_combinations_sample source: the global counter starts in an ARBITRARY state satisfying the invariant max-min<=1 over a duplicate-free candidate list (symbolic counts; or empty = base case), the cap is symbolic (so it may change between batches), one call runs, and z3 shows on every path: len(out)=min(cap,m), distinct members of the list, every selected pre-count <= every unselected one, counter +1 exactly on the selected, invariant restored. One step from every invariant state covers batch sequences of any length. The process-global counter may in addition hold a foreign key of another candidate list; an export-file condition runs the real ranking task (4 features, interaction order 1..2, cap 2..7, 1..4 mini-batches (thorough: 1..14, long enough for both orders of a pair of interaction columns to become candidates), optionally a counter that already holds both orders of such a pair - all solver-chosen) with a recording wrapper around the sampler and compares combination_estimation_counts.json key by key (ordered tuples) with the selections actually made; a large-cap condition explores caps around the module constant MAX_FEATURES_3MR (read from the source) with a longer candidate list.',
     'note': 'Candidate lists of m<=5 (quick) / m<=8 (thorough) entries; counts in [0,4]; the process-global counter may also hold a foreign key of another candidate list; lists with duplicates are outside (the statement says stable duplicate-free list). The export clause (returned/exported counts = selections) is explored through the real streaming loop incl. the tail batch (condition export; the JSON file itself in C08).',
     'technique': 'symbolic execution of the real Python source with z3 from an arbitrary invariant pre-state (k-induction, k=1)',
 }
@@ -23,12 +23,12 @@ BOUNDS = {'quick': [1, 2, 3, 4, 5], 'thorough': [1, 2, 3, 4, 5, 6, 7, 8]}
 INFO = {
     'engine': 'symx + z3',
     'explanation': 'Pre-state counts and cap symbolic; sorted(key=Counter.get) forks on solver-decided comparisons; post-conditions are z3 queries per path.',
-    'bounds': {t: {'step': [f'list of {m} candidates, counts 0..4, cap 0..{m + 1}' for m in v]} for t, v in BOUNDS.items()},
+    'bounds': {t: {'step': [f'list of {m} candidates, counts 0..2^40 (pairwise within 1), cap 0..{m + 1}' for m in v]} for t, v in BOUNDS.items()},
     'outside': ['candidate lists with duplicates', 'several lists sharing keys in the one global counter', 'lists longer than the bound'],
     'assumptions': ['the function is extracted from core_ranking.py with its global counter; Counter is the real collections.Counter holding symbolic ints'],
     'job_timeout': {'quick': 200, 'thorough': 1800},
 }
-CMAX = 4
+CMAX = 2 ** 40      # the pre-state is ANY invariant state: counts after any number of batches, not just the first few
 
 
 def _module_constants():
@@ -52,11 +52,15 @@ def load_fn():
 
 def jobs(tier):
     out = [{'cond': 'export', 'pins': {}, 'weight': 50, 'label': 'export'}, {'cond': 'large-cap', 'pins': {}, 'weight': 60, 'label': 'large-cap'}]
+    for nb in range(1, NB_MAX[tier] + 1):
+        out.append({'cond': 'export-file', 'tier': tier, 'pins': {'nb': nb}, 'weight': 12, 'label': f'task with {nb} mini-batches, interaction order 1..2, cap 2..7'})
     for m in BOUNDS[tier]:
         for fresh in (False, True):
             if m >= 6 and not fresh:
-                for c0 in range(CMAX + 1):
-                    out.append({'cond': 'step', 'm': m, 'fresh': fresh, 'pins': {'c0': c0}, 'weight': 2 ** m, 'label': f'm={m},c0={c0}'})
+                for d1 in (-1, 0, 1):
+                    for d2 in (-1, 0, 1):
+                        if abs(d1 - d2) <= 1:
+                            out.append({'cond': 'step', 'm': m, 'fresh': fresh, 'pins': {}, 'rel': [d1, d2], 'weight': 2 ** m, 'label': f'm={m},c1-c0={d1},c2-c0={d2}'})
             else:
                 out.append({'cond': 'step', 'm': m, 'fresh': fresh, 'pins': {}, 'weight': 2 ** m, 'label': f'm={m},fresh={fresh}'})
     return out
@@ -87,6 +91,113 @@ def run_export(job):
         else:
             out.concrete_fail({'cond': 'export', 'n': n, 'mb': mb}, 'returned evaluation counts differ from the selections')
         out.sample({'lines': n, 'minibatch': mb, 'counts': {str(k): v for k, v in rec['counts'].items()}})
+    return hutil.run_symx(job, setup, body)
+
+
+def drive_export_file(cap, nbatches, order, preload=None):
+    """the real ranking task (4 features + label, interaction tuples, pairwise mode) with a recording wrapper around the sampler;
+    returns (selections made, contents of combination_estimation_counts.json)"""
+    import json
+    import os
+    import shutil
+    import tempfile
+    from harness import pipeline as PL
+    cr, cu, tr, ie = PL.real_modules()
+    cols = ['fa', 'fb', 'fc', 'fd', 'label']
+    mb = 3
+    rows = [[f'a{i % 2}', f'b{i % 3}', f'c{(i // 2) % 2}', f'd{(i * 5) % 4}', str((i + i // 3) % 2)] for i in range(mb * nbatches)]
+    d = tempfile.mkdtemp(prefix='c07x-', dir='/var/tmp')
+    os.makedirs(os.path.join(d, 'in'))
+    with open(os.path.join(d, 'in', 'data.csv'), 'w') as f:
+        f.write(','.join(cols) + '\n' + ''.join(','.join(r) + '\n' for r in rows))
+    args = PL.cli_args(['--data_path', os.path.join(d, 'in'), '--data_source', 'csv-raw', '--output_folder', os.path.join(d, 'out'), '--heuristic', 'MI-numba-randomized',
+                        '--subsampling', '1', '--minibatch_size', str(mb), '--disable_tqdm', 'True', '--num_threads', '1', '--target_ranking_only', 'False',
+                        '--interaction_order', str(order), '--combination_number_upper_bound', str(cap)])
+    PL.fresh_state()
+    sel = Counter()
+    # the counter is process-global: what an earlier part of the history left in it (here: both orders of one pair of interaction
+    # columns, a state long runs reach - the thorough tier reaches it through the task itself) is still there and is exported too
+    for k, v in (preload or {}).items():
+        cr.GLOBAL_PRIOR_COMB_COUNTS[k] = v
+        sel[k] += v
+    real = cr.prior_combinations_sample
+
+    def wrap(combinations, a):
+        res = real(combinations, a)
+        sel.update(tuple(c) for c in res)
+        return res
+    saved = (cr.prior_combinations_sample, tr.Pool)
+    cr.prior_combinations_sample, tr.Pool = wrap, PL.SerialPool
+    cwd = os.getcwd()
+    os.chdir(d)
+    try:
+        try:
+            tr.outrank_task_conduct_ranking(args)
+        except SystemExit:
+            pass
+        fn = os.path.join(d, 'out', 'combination_estimation_counts.json')
+        dumped = json.load(open(fn)) if os.path.exists(fn) else None
+    finally:
+        os.chdir(cwd)
+        shutil.rmtree(d, ignore_errors=True)
+        cr.prior_combinations_sample, tr.Pool = saved
+    return sel, dumped
+
+
+def export_file_problem(cap, nbatches, order, preload=None):
+    import ast as _ast
+    sel, dumped = drive_export_file(cap, nbatches, order, preload)
+    if dumped is None:
+        return 'combination_estimation_counts.json was not written'
+    got = {}
+    for k, v in dumped.items():
+        got[tuple(_ast.literal_eval(k))] = got.get(tuple(_ast.literal_eval(k)), 0) + v
+    exp = {k: v for k, v in sel.items() if v}
+    got = {k: v for k, v in got.items() if v}
+    def canon(d):
+        # a report may name a combination by its members in any order; what it may not do is lose or merge evaluations
+        o = {}
+        for k, v in d.items():
+            o[tuple(sorted(k))] = o.get(tuple(sorted(k)), 0) + v
+        return o
+    if got != exp and canon(got) != canon(exp):
+        miss = sorted(k for k in exp if got.get(k) != exp[k])[:2]
+        return f'{len(exp)} candidates were selected at least once, the exported file reports {len(got)} ({sum(got.values())} evaluations vs {sum(exp.values())} made); e.g. {[(k, exp[k], got.get(k)) for k in miss]}'
+    return None
+
+
+NB_MAX = {'quick': 4, 'thorough': 14}
+
+
+def preload_state(p1, p2):
+    return {('fa AND fd', 'fa AND fb'): p1, ('fa AND fb', 'fa AND fd'): p2}
+
+
+def run_exportfile(job):
+    st = {}
+
+    def setup(ctx):
+        st['cap'], st['nb'], st['order'] = z3.Int('cap'), z3.Int('nb'), z3.Int('order')
+        st['p1'], st['p2'] = z3.Int('p1'), z3.Int('p2')
+        ctx.assume(st['cap'] >= 2, st['cap'] <= 7, st['nb'] >= 1, st['nb'] <= NB_MAX[job.get('tier', 'quick')], st['order'] >= 1, st['order'] <= 2)
+        ctx.assume(st['p1'] >= -1, st['p1'] <= 2, st['p2'] >= -1, st['p2'] <= 2, (st['p1'] == -1) == (st['p2'] == -1))
+        ctx.assume(z3.Implies(st['p1'] >= 0, z3.And(st['order'] == 2, st['nb'] <= 2)))
+        for k, v in job['pins'].items():
+            ctx.assume(z3.Int(k) == v)
+
+    def body(ctx, out):
+        cap, nb, order = int(SInt(st['cap'], 2, 7)), int(SInt(st['nb'], 1, 4)), int(SInt(st['order'], 1, 2))
+        p1, p2 = int(SInt(st['p1'], -1, 2)), int(SInt(st['p2'], -1, 2))
+        w = {'cond': 'export-file', 'cap': cap, 'nb': nb, 'order': order, 'preload': [p1, p2] if p1 >= 0 else None}
+        try:
+            p = export_file_problem(cap, nb, order, preload_state(p1, p2) if p1 >= 0 else None)
+        except Exception as e:
+            p = f'{type(e).__name__}: {e}'
+        if p or out.twin:
+            out.concrete_fail(w, p or 'twin')
+        else:
+            out.concrete_ok()
+        out.sample(w)
     return hutil.run_symx(job, setup, body)
 
 
@@ -130,6 +241,8 @@ def run_job(job):
         return run_export(job)
     if job['cond'] == 'large-cap':
         return run_largecap(job)
+    if job['cond'] == 'export-file':
+        return run_exportfile(job)
     m, fresh = job['m'], job['fresh']
     ns = load_fn()
     f = ns['prior_combinations_sample']
@@ -151,6 +264,8 @@ def run_job(job):
         ctx.assume(st['foreign'] >= -1, st['foreign'] <= CMAX)
         for k, v in job['pins'].items():
             ctx.assume(z3.Int(k) == v)
+        if job.get('rel'):
+            ctx.assume(st['c'][1] - st['c'][0] == job['rel'][0], st['c'][2] - st['c'][0] == job['rel'][1])
         if fresh:
             for v in st['c']:
                 ctx.assume(v == 0)
@@ -207,6 +322,14 @@ def replay(w):
         if len(res) != min(w['cap'], w['m']):
             return {'reproduced': True, 'signature': 'C07:large-cap', 'what': f'{w["m"]} candidates, cap {w["cap"]}: {len(res)} selected instead of {min(w["cap"], w["m"])}'}
         return {'reproduced': False, 'what': 'min(cap, m) selected'}
+    if w['cond'] == 'export-file':
+        try:
+            p = export_file_problem(w['cap'], w['nb'], w['order'], preload_state(*w['preload']) if w.get('preload') else None)
+        except Exception as e:
+            p = f'{type(e).__name__}: {e}'
+        if p:
+            return {'reproduced': True, 'signature': 'C07:export-file:' + ('exception' if 'Error' in p.split(':')[0] else 'counts'), 'what': f'ranking task, 4 features, {w["nb"]} mini-batches of 3 rows, interaction order {w["order"]}, cap {w["cap"]}' + (f', counter already holding {preload_state(*w["preload"])} from earlier batches' if w.get('preload') else '') + f': {p}'}
+        return {'reproduced': False, 'what': 'exported counts equal the selections made'}
     if w['cond'] == 'export':
         from harness import C08
         from harness import pipeline as PL
